@@ -30,6 +30,29 @@ async def work():
     await asyncio.sleep(3600)
 
 
+def _call(f, *a):
+    """the reply rule of C17 (Control!Expected): 'ok' for None, else str() of the result or of the exception raised"""
+    try:
+        r = f(*a)
+    except Exception as e:      # noqa: BLE001
+        return str(e)
+    return "ok" if r is None else str(r)
+
+
+LONG = "x" * 12000
+# concrete well-formed query lines (no effect on the pool) with the reply the method call itself gives: what a client
+# receives over a real socket - raw or through the bundled CLI client - must be exactly that
+QUERIES = [
+    ("num-running", lambda p: str(p.num_running)),
+    ("get-group-ids 'q' \"r\"", lambda p: _call(p.get_group_ids, "'q'", '"r"')),
+    ("pool-size", lambda p: str(p.pool_size)),
+    ("get-group-ids start-group-0", lambda p: _call(p.get_group_ids, "start-group-0")),
+    ("get-group-ids " + LONG, lambda p: _call(p.get_group_ids, LONG)),
+    ("is-locked", lambda p: str(p.is_locked)),
+    ("get-group-ids start-group-0 [1,'a'] {'k':\"v\"}", lambda p: _call(p.get_group_ids, "start-group-0", "[1,'a']", "{'k':\"v\"}")),
+]
+
+
 def pobs(pool):
     return repr((pool.num_running, pool.num_cancelled, pool.num_ended, bool(pool.is_locked)))
 
@@ -84,6 +107,7 @@ async def run_script(job):
     task = None
     clients = {}
     transport = None
+    nq = [0]
 
     def ev(_e, **f):
         rec = {"e": _e}
@@ -144,9 +168,28 @@ async def run_script(job):
                         ev("connected", s=c["s"], cli=False, ok=name.decode() == str(pool) + "\n", text=name.decode())
                     except Exception as e:
                         ev("connected", s=c["s"], cli=False, ok=False, text=type(e).__name__)
+            elif k == "handshake":
+                # a raw client that connected earlier without sending its handshake sends it now
+                cl = clients.get(c["s"])
+                if cl is None or cl.w is None:
+                    continue
+                try:
+                    cl.w.write(json.dumps({"terminal_width": 80}).encode() + b"\n")
+                    await cl.w.drain()
+                    name = await asyncio.wait_for(cl.r.readline(), BOUND)
+                    ev("handshook", s=c["s"], ok=name.decode() == str(pool) + "\n", text=name.decode()[:80])
+                except Exception as e:
+                    ev("handshook", s=c["s"], ok=False, text=type(e).__name__)
             elif k == "cmd":
                 cl = clients.get(c["s"])
-                line = LINES.get(c["cls"], "num-running")
+                line, exp = LINES.get(c["cls"], "num-running"), None
+                nq[0] += 1
+                if c["cls"] == "query":
+                    v = c.get("v", (nq[0] + c["s"]) % len(QUERIES))
+                    line, expf = QUERIES[v]
+                    exp = expf(pool)
+                elif c["cls"] == "mutate":
+                    exp = "ok"
                 before = pobs(pool)
                 if cl is None:
                     continue
@@ -155,14 +198,22 @@ async def run_script(job):
                         cl.cli.stdin.write(line.encode() + b"\n")
                         await cl.cli.stdin.drain()
                         out = await read_until_prompt(cl.cli.stdout)
-                        ev("reply", s=c["s"], cls=c["cls"], got=out.endswith("> ") and len(out) > 3, text=out[:120], before=before)
+                        body = (out[:-2] if out.endswith("> ") else out).strip("\n")
+                        ev("reply", s=c["s"], cls=c["cls"], got=out.endswith("> ") and len(out) > 3, text=out[:120], before=before,
+                           same=exp is None or body == exp, line=line[:60])
                     else:
                         cl.w.write(line.encode() + b"\n")
                         await cl.w.drain()
                         out = await asyncio.wait_for(cl.r.read(65536), BOUND)
-                        ev("reply", s=c["s"], cls=c["cls"], got=len(out) > 0, text=out.decode()[:120], before=before)
+                        while exp is not None and len(out) < len(exp.encode()) and not out.endswith(b"\n"):
+                            more = await asyncio.wait_for(cl.r.read(65536), 1.0)      # a long reply may arrive in pieces
+                            if not more:
+                                break
+                            out += more
+                        ev("reply", s=c["s"], cls=c["cls"], got=len(out) > 0, text=out.decode()[:120], before=before,
+                           same=exp is None or out.decode().strip("\n") == exp, line=line[:60])
                 except Exception as e:
-                    ev("reply", s=c["s"], cls=c["cls"], got=False, text=type(e).__name__, before=before)
+                    ev("reply", s=c["s"], cls=c["cls"], got=False, text=type(e).__name__, before=before, same=True, line=line[:60])
             elif k == "disconnect":
                 cl = clients.pop(c["s"], None)
                 before = pobs(pool)
